@@ -165,11 +165,17 @@ pub fn model_for(replay: &serde_json::Value) -> Hist {
 
 pub fn run(tier: Tier) -> Outcome {
     let mut runs = vec![];
+    // debugging aid only: VERIF_C03_ONLY=stale:E runs one part (the evidence then says so through its run list)
+    let only = std::env::var("VERIF_C03_ONLY").ok();
+    let want = |label: &str| only.as_deref().map(|o| o == label).unwrap_or(true);
     let sweep_worlds: &[&str] = match tier {
         Tier::Quick => &["A", "B", "E"],
         Tier::Thorough => &["A", "B", "C", "D", "E"],
     };
     for wn in sweep_worlds {
+        if !want(&format!("sweep:{wn}")) {
+            continue;
+        }
         let h = sweep_model(tier, wn);
         let lim = Limits { max_depth: 1, max_wall_s: 60.0, ..Default::default() };
         let (report, recheck) = run_world(&h, &lim, None);
@@ -184,12 +190,20 @@ pub fn run(tier: Tier) -> Outcome {
         Tier::Thorough => 6,
     };
     for wn in rt_worlds {
+        if !want(&format!("rt:{wn}")) {
+            continue;
+        }
         let h = roundtrip_model(tier, wn);
         let lim = Limits { max_depth: depth, max_wall_s: if tier == Tier::Quick { 25.0 } else { 1500.0 }, ..Default::default() };
         let (report, recheck) = run_world(&h, &lim, Some(depth - 2));
         runs.push(HistRun { world: format!("rt:{wn}"), report, recheck });
     }
     for wn in rt_worlds {
+        // world E (0- and 18-decimal mints funded with tiny balances) exists for the rounding sweeps; the
+        // lending roots of the stale model cannot be built in it
+        if *wn == "E" || !want(&format!("stale:{wn}")) {
+            continue;
+        }
         let h = stale_model(tier, wn);
         let d = if tier == Tier::Quick { 2 } else { 3 };
         let lim = Limits { max_depth: d, max_wall_s: if tier == Tier::Quick { 25.0 } else { 900.0 }, ..Default::default() };
